@@ -296,6 +296,123 @@ FAM_LATE = Family("late_hooks", "", "", "", gen_late, impl_late, lambda c, o: ""
                   nontrivial=lambda c, o: any(x[0] == "hook" for x in o["log"]), describe=lambda c: c["initial"])
 
 
+# --------------------------------------------------------------------------- pre-built events handed out by a process; reset + re-run (oracle only)
+def gen_handout(rng):
+    k = rng.randint(2, 8)
+    order = list(range(k))
+    how = rng.choice(["creation", "reversed", "shuffled", "shuffled"])
+    if how == "reversed":
+        order.reverse()
+    elif how == "shuffled":
+        rng.shuffle(order)
+    step = rng.choice([250_000_000, 500_000_000, 1_000_000_000])
+    return dict(k=k, order=order, step=step, deadline=[(k + 5 + j) * step + rng.choice([0, 1, 7]) for j in range(k)],
+                resolve_at=rng.choice([1, 2, 3]) * step + rng.choice([0, 3]), rerun=rng.random() < 0.6,
+                stop_first_at=rng.choice([None, None, (k + 3) * step + 11]), built=rng.choice(["first", "last", "last"]))
+
+
+def impl_handout(c):
+    """A process arms k timer events that were BUILT BEFORE the run (one per `yield delay, [event]`, in a chosen
+    order), then parks on a future created inside the handler and resolved by another entity.  Optionally the
+    simulation is reset and run a second time (the first run possibly stopped early by its horizon)."""
+    from happysimulator.core.entity import Entity
+    from happysimulator.core.event import Event
+    from happysimulator.core.sim_future import SimFuture
+    from happysimulator.core.simulation import Simulation
+    from happysimulator.core.temporal import Instant
+    from hsverif.util import Timeout, time_limit
+    log = []
+    box = {}
+
+    class Sink(Entity):
+        def handle_event(self, event):
+            log.append(["timer", self.now.nanoseconds, event.context["j"]])
+            return None
+
+    class Proc(Entity):
+        def handle_event(self, event):
+            if event.event_type == "resolve":
+                if box.get("fut") is not None:
+                    box["fut"].resolve(41)
+                return None
+            log.append(["start", self.now.nanoseconds])
+            box["fut"] = SimFuture()
+            v = yield box["fut"]
+            log.append(["resumed", self.now.nanoseconds, v])
+            for j in c["order"]:
+                yield c["step"] / 1e9, [box["timers"][j]]
+                log.append(["armed", self.now.nanoseconds, j])
+            log.append(["finish", self.now.nanoseconds])
+            return None
+
+    sink, proc = Sink("sink"), Proc("proc")
+    horizon = max(c["deadline"]) + 5 * c["step"]
+
+    def arm_world(sim):
+        early = c.get("built") == "first"
+        if early:
+            box["timers"] = [Event(time=Instant(t), event_type="deadline", target=sink, context={"j": j}) for j, t in enumerate(c["deadline"])]
+        sim.schedule(Event(time=Instant(0), event_type="go", target=proc))
+        sim.schedule(Event(time=Instant(c["resolve_at"]), event_type="resolve", target=proc))
+        if not early:
+            # built after everything that is scheduled up front, but before the run: their creation indices lie
+            # above every index the heap has seen when the run starts handing out its own
+            box["timers"] = [Event(time=Instant(t), event_type="deadline", target=sink, context={"j": j}) for j, t in enumerate(c["deadline"])]
+
+    runs = []
+    try:
+        with time_limit(30):
+            first_end = c["stop_first_at"] if (c["rerun"] and c["stop_first_at"]) else horizon
+            sim = Simulation(entities=[proc, sink], end_time=Instant(horizon))
+            arm_world(sim)
+            if first_end != horizon:
+                from happysimulator.core.control.breakpoints import TimeBreakpoint
+                sim.control.add_breakpoint(TimeBreakpoint(time=Instant(first_end)))
+            sim.run()
+            runs.append(list(log))
+            if c["rerun"]:
+                del log[:]
+                sim.control.reset()
+                box["fut"] = None
+                arm_world(sim)
+                sim.run()
+                if sim.control.is_paused:
+                    sim.control.resume()
+                runs.append(list(log))
+    except Timeout:
+        return dict(status=3, runs=runs)
+    return dict(status=0, runs=runs)
+
+
+def oracle_handout(c, o):
+    if o["status"] == 3:
+        return [dict(clause="run exceeded the time limit")]
+    full = [o["runs"][-1]] if (c["rerun"] and c["stop_first_at"]) else o["runs"]
+    for n, log in enumerate(full):
+        which = "re-run after reset()" if (c["rerun"] and log is o["runs"][-1]) else "run"
+        res = [x for x in log if x[0] == "resumed"]
+        if len(res) != 1 or res[0][1] != c["resolve_at"] or res[0][2] != 41:
+            return [dict(clause="a process parked on a future is resumed when the future is resolved, at that instant, with the resolved value",
+                         which=which, resumed=res, resolve_at=c["resolve_at"])]
+        t = c["resolve_at"]
+        for x, j in zip([x for x in log if x[0] == "armed"], c["order"]):
+            t += c["step"]
+            if x[1] != t or x[2] != j:
+                return [dict(clause="after yielding a delay d the process resumes exactly d later", which=which, got=x, expected=[t, j])]
+        if len([x for x in log if x[0] == "armed"]) != c["k"] or not any(x[0] == "finish" for x in log):
+            return [dict(clause="a process that yields a delay is resumed (every step of the generator runs, the process finishes)",
+                         which=which, armed=[x[2] for x in log if x[0] == "armed"], order=c["order"])]
+        timers = sorted([x[1], x[2]] for x in log if x[0] == "timer")
+        if timers != sorted([t, j] for j, t in enumerate(c["deadline"])):
+            return [dict(clause="events yielded as side effects are scheduled: each is delivered exactly once at its own time",
+                         which=which, delivered=timers, expected=sorted([t, j] for j, t in enumerate(c["deadline"])))]
+    return []
+
+
+FAM_HANDOUT = Family("handout", "", "", "", gen_handout, impl_handout, lambda c, o: "", oracle_handout,
+                     nontrivial=lambda c, o: c["order"] != sorted(c["order"]) or c["rerun"], describe=lambda c: "rerun" if c["rerun"] else "single")
+
+
 from hsverif.family import run_oracle_only  # noqa: E402
 
 
@@ -311,7 +428,9 @@ def run(ctx):
     ctx.prove(FILES, allowed_axioms=(), trusted_base=TRUSTED)
     stats = [run_family(ctx, FAM, ctx.n(500, 10000))]
     merge_stats(ctx, stats, "random scripts with at least one generator handler: three yield forms, yield from, float delays, futures resolved before/at/after the park, nested any_of/all_of, double resolve, double park; non-trivial = >=3 process steps; distinct by JSON")
-    ctx.coverage["oracle_only_families"] = [run_oracle_only(ctx, FAM_LATE, ctx.n(150, 1500))]
+    ctx.coverage["oracle_only_families"] = [run_oracle_only(ctx, FAM_LATE, ctx.n(150, 1500)),
+                                            run_oracle_only(ctx, FAM_HANDOUT, ctx.n(120, 1200))]
+    ctx.assumptions.append("events built before the run and handed out by a process in an arbitrary order, futures created per run, and reset() + re-run (handout family) are checked by the implementation-side oracle only")
     ctx.assumptions.append("completion hooks attached AFTER the process has started (late_hooks family) are checked by the implementation-side oracle only; the Coq interpreter attaches hooks at event creation")
     ctx.assumptions.append("any_of/all_of whole-combinator statements are proved as one-step callback semantics only (c02_*_partial); nesting is covered by the correspondence and the oracle")
     ctx.finish_obligations()
@@ -323,6 +442,12 @@ def replay(data):
         o = impl_late(c)
         f = oracle_late(c, o)
         print("log:", o["log"])
+        print("oracle failures:", f)
+        return 1 if f else 0
+    if data["detail"].get("family") == "handout":
+        o = impl_handout(c)
+        f = oracle_handout(c, o)
+        print("runs:", o["runs"])
         print("oracle failures:", f)
         return 1 if f else 0
     o = impl(c)
